@@ -13,6 +13,8 @@ MOD = "vlib.engines.compat"
 
 # Bloom-family configurations: (M, K, probe);  count-min: (W, D, probe)
 BLOOM_CFGS = [(3, 1, 7), (3, 2, 7), (5, 2, 7), (3, 2, 8), (8, 2, 7), (8, 3, 7), (8, 2, 9)]
+# at scale: (est_elements, rate) pairs; some differ in bits but not in bytes or hashes, some only in hashes
+BIG_BLOOM = [(10, 0.05), (10, 0.055), (1000, 0.05), (1001, 0.05), (1000, 0.049), (20000, 0.01), (20001, 0.01), (20000, 0.0101)]
 CMS_CFGS = [(2, 2, 7), (2, 3, 7), (3, 2, 7), (2, 2, 8), (1, 1, 7)]
 FOREIGN = ["int", "none", "str", "dict", "qf", "cuckoo"]
 
@@ -124,8 +126,59 @@ class Ctx:
         t.sample({"family": fam, "second": fam2, "c1": c1, "c2": c2, "expected": out})
 
 
+def big_pairs(total):
+    """the Compat rule on realistically sized filters: geometry is what the constructor reports, the rule is Compat.tla's"""
+    import itertools
+
+    import probables as P
+
+    for cls_name in ("BloomFilter", "CountingBloomFilter"):
+        cls = getattr(P, cls_name)
+        objs = []
+        for est, fpr in BIG_BLOOM:
+            if cls_name == "CountingBloomFilter" and est > 2000:
+                continue
+            f = cls(est_elements=est, false_positive_rate=fpr)
+            for i in range(0, 40):
+                f.add(f"key-{est}-{i}")
+            objs.append(((est, fpr), f))
+        for (c1, A), (c2, B) in itertools.product(objs, repeat=2):
+            compatible = (A.number_bits, A.number_hashes) == (B.number_bits, B.number_hashes)   # same default hash: Compatible(a,b) of Compat.tla
+            bA, bB = bytes(A), bytes(B)
+            for op in ("union", "intersection", "jaccard_index"):
+                try:
+                    res = getattr(A, op)(B)
+                    got = "result" if res is not None else "none"
+                except Exception as exc:  # noqa
+                    got = f"raised {exc!r}"
+                want = "result" if compatible else "none"
+                total.evaluations += 1
+                total.check(got == want, "C13", "C13.compatible_result.scale" if compatible else "C13.incompatible_none.scale", ENGINE,
+                            {"class": cls_name, "c1": c1, "c2": c2, "geometry": [[A.number_bits, A.number_hashes], [B.number_bits, B.number_hashes]], "op": op, "got": got}, {"op": op, "class": cls_name})
+            total.check(bytes(A) == bA and bytes(B) == bB, "C13", "C13.operands_unchanged.scale", ENGINE, {"class": cls_name, "c1": c1, "c2": c2}, {"class": cls_name})
+            if not compatible:
+                total.nontriv(hash((cls_name, c1, c2)))
+    for (w1, d1), (w2, d2) in itertools.product([(1000, 5), (1001, 5), (1000, 4), (2000, 5)], repeat=2):
+        A, B = P.CountMinSketch(width=w1, depth=d1), P.CountMinSketch(width=w2, depth=d2)
+        for i in range(30):
+            A.add(f"a{i}", i + 1)
+            B.add(f"b{i}", 2)
+        bB = bytes(B)
+        try:
+            A.join(B)
+            got = "result"
+        except P.exceptions.CountMinSketchError:
+            got = "error"
+        except Exception as exc:  # noqa
+            got = f"raised {exc!r}"
+        total.evaluations += 1
+        total.check(got == ("result" if (w1, d1) == (w2, d2) else "error"), "C13", "C13.join_rule.scale", ENGINE, {"a": [w1, d1], "b": [w2, d2], "got": got}, {"family": "cms"})
+        total.check(bytes(B) == bB, "C13", "C13.operands_unchanged.scale", ENGINE, {"a": [w1, d1], "b": [w2, d2]}, {"family": "cms"})
+
+
 def run(focus, tier, seed):
     total = Tally(focus)
+    big_pairs(total)
     jobs = [dict(module=module(f), cfg=CFG, workers=1, timeout=600, tag=f) for f in ("mem", "disk", "counting", "cms")]
     t, rs = s2c.run_s2c(MOD, focus, jobs, tlc_parallel=4, batch=40)
     total.merge(t)
